@@ -84,12 +84,24 @@ KINDS = ("node", "apside", "anomaly", "signal", "mask", "max", "radial", "umbra"
 
 # ------------------------------------------------------------------------------------------------
 def jobs(tier):
+    from .. import repotests
+
+    return _jobs(tier) + [repotests.job()]  # + the repository's own tests as a workload for invariant hooks
+
+
+def _jobs(tier):
     n = 64 if tier == "quick" else 1040
     return [{"name": "streams", "n": n, "eop": "real", "timeout": 1500 if tier == "quick" else 7200},
             {"name": "long-steps", "n": 24 if tier == "quick" else 400, "eop": "zero"}]
 
 
 def requirements(tier):
+    from .. import repotests
+
+    return dict(_requirements(tier), **repotests.MIN["C10"])
+
+
+def _requirements(tier):
     k = 1 if tier == "quick" else 10
     req = {}
     for kind in KINDS:
